@@ -20,19 +20,19 @@ def CmpExactC : Prop := ∀ (nnc : Bool) (a b : Row), a.cf.length = b.cf.length 
 
 theorem EnginePair.weakenC {nnc n cs gs fG sC sG} (f : Bool)
     (h : EnginePair nnc n cs gs true fG sC sG) : EnginePair nnc n cs gs f fG sC sG :=
-  ⟨h.sound, h.complete, h.minC, h.minG, fun _ => h.satC rfl, h.satG⟩
+  ⟨h.sound, h.complete, h.minC, h.minG, h.minL, fun _ => h.satC rfl, h.satG⟩
 
 theorem EnginePair.weakenG {nnc n cs gs fC sC sG} (f : Bool)
     (h : EnginePair nnc n cs gs fC true sC sG) : EnginePair nnc n cs gs fC f sC sG :=
-  ⟨h.sound, h.complete, h.minC, h.minG, h.satC, fun _ => h.satG rfl⟩
+  ⟨h.sound, h.complete, h.minC, h.minG, h.minL, h.satC, fun _ => h.satG rfl⟩
 
 theorem EnginePair.dropG {nnc n cs gs fC fG sC sG} (sG' : BitMat)
     (h : EnginePair nnc n cs gs fC fG sC sG) : EnginePair nnc n cs gs fC false sC sG' :=
-  ⟨h.sound, h.complete, h.minC, h.minG, h.satC, fun h' => (by cases h')⟩
+  ⟨h.sound, h.complete, h.minC, h.minG, h.minL, h.satC, fun h' => (by cases h')⟩
 
 theorem EnginePair.dropC {nnc n cs gs fC fG sC sG} (sC' : BitMat)
     (h : EnginePair nnc n cs gs fC fG sC sG) : EnginePair nnc n cs gs false fG sC' sG :=
-  ⟨h.sound, h.complete, h.minC, h.minG, fun h' => (by cases h'), h.satG⟩
+  ⟨h.sound, h.complete, h.minC, h.minG, h.minL, fun h' => (by cases h'), h.satG⟩
 
 theorem legal_dim {s : Status} {d : Nat} (h : statusLegalB s d = true) (hc : s.cUp = true) : 0 < d := by
   simp only [statusLegalB, Bool.and_eq_true] at h
